@@ -1,6 +1,7 @@
 import NxModel.Prudp.PacketIO
 import NxModel.Prudp.Payload
 import NxModel.DriverUtil
+import NxModel.Crypto.Inflate
 /-! line-protocol driver for the C08 reference (signatures, key chain, payload transformation, connection request)
 
   v0ck cv key data                         -> <nat>
@@ -12,6 +13,9 @@ import NxModel.DriverUtil
   pnew transport compression maxsub -> ok ; pkey k -> ok | err N
   penc type flags sub pid session payload z -> ok <hex> | err N
   pdec type flags sub pid session data <inflated-hex>|fail -> ok <hex> | err N
+  pdecz type flags sub pid session data                  -> the same, with the Lean inflater instead of the oracle argument
+  zinf <hex>                                              -> ok <hex> | err      (zlib.decompress)
+  zchk <payload> <z>                                      -> ok | bad           (does the deflate oracle z inflate to payload?)
   kerbenc key data | kerbdec key data -> ok <hex> | err N
   connreq pidsize pid cid check sk ticket -> ok <hex> | err N ; connresp check -> <hex>
   chkresp <check>|none data -> ok | err N
@@ -105,6 +109,20 @@ def step (st : PayState) (line : String) : PayState × String :=
       let (r, s) := st.decode ty fl sub pid se data (fun _ => inf)
       (s, showRes r)
     | _, _, _ => (st, "bad-op")
+  | ["pdecz", ty, fl, sub, pid, se, data] =>
+    match natsOf [ty, fl, sub, pid, se], fromHex data with
+    | some [ty, fl, sub, pid, se], some data =>
+      let (r, s) := st.decode ty fl sub pid se data Nx.Crypto.zlibDecompress
+      (s, showRes r)
+    | _, _ => (st, "bad-op")
+  | ["zinf", d] =>
+    match fromHex d with
+    | some d => (st, match Nx.Crypto.zlibDecompress d with | some o => "ok " ++ hexOut o | none => "err")
+    | none => (st, "bad-op")
+  | ["zchk", pl, z] =>
+    match fromHex pl, fromHex z with
+    | some pl, some z => (st, if Nx.Crypto.zlibDecompress z == some pl then "ok" else "bad")
+    | _, _ => (st, "bad-op")
   | ["kerbenc", k, d] =>
     match fromHex k, fromHex d with
     | some k, some d => (st, showRes (kerbEncrypt k d))
